@@ -678,10 +678,107 @@ func c02Abort(c *Check) {
 				if ok2, _ := rr.MustPass(rr.Entry(), true, rr.IsNormalExit, isPt([]Pt{pt})); ok2 {
 					roles[s] = true
 				}
+				continue
+			}
+			// table-driven form: `for _, part := range [...]struct{ext …}{{".header", …}, …} { os.Remove(… id+part.ext) }`:
+			// the loop runs over a literal table to completion and every iteration passes the Remove
+			for _, l := range elemLoops(rr.Info, rr.FI.Decl.Body, func(e ast.Expr) bool {
+				_, isLit := ast.Unparen(resolveLocal(rr.Info, rr.FI.Decl.Body, e)).(*ast.CompositeLit)
+				return isLit
+			}) {
+				if !l.Whole || !posIn(l.Body, call.Pos()) {
+					continue
+				}
+				if _, skip := rr.F.Reach(Query{From: rr.F.LoopBodyStart(l), Inclusive: true, Target: rr.F.IterEnd(l), Avoid: isPt([]Pt{pt})}); skip {
+					continue
+				}
+				// the loop itself is passed on every way through the function
+				if okLoop, _ := rr.MustPass(rr.Entry(), true, rr.IsNormalExit, isPt(rr.F.LoopDone(l))); !okLoop {
+					continue
+				}
+				// the field of the element that ends the path
+				var fieldName string
+				var tail ast.Expr = call.Args[0]
+				ast.Inspect(call.Args[0], func(x ast.Node) bool {
+					if sx, ok := x.(*ast.SelectorExpr); ok && l.IsElem(sx.X) {
+						fieldName, tail = sx.Sel.Name, sx
+					}
+					return true
+				})
+				// … must be the last operand of the path expression
+				if fieldName == "" || tail.End() < ast.Unparen(lastOperand(call.Args[0])).End() {
+					continue
+				}
+				table, _ := ast.Unparen(resolveLocal(rr.Info, rr.FI.Decl.Body, l.List)).(*ast.CompositeLit)
+				for _, s := range literalFieldStrings(rr.Info, table, fieldName) {
+					roles[s] = true
+				}
 			}
 		}
 		for _, s := range []string{".header", ".body", ".meta"} {
 			c.Hold("R5", "removeFromDisk:"+s, rr.FI.Decl.Pos(), roles[s], "removeFromDisk does not remove the "+s+" file on every path")
 		}
 	}
+}
+
+
+// lastOperand: the right-most operand of a `+` chain / the last argument of a Join-like call.
+func lastOperand(e ast.Expr) ast.Expr {
+	for {
+		switch x := ast.Unparen(e).(type) {
+		case *ast.BinaryExpr:
+			e = x.Y
+			continue
+		case *ast.CallExpr:
+			if len(x.Args) > 0 {
+				e = x.Args[len(x.Args)-1]
+				continue
+			}
+		}
+		return e
+	}
+}
+
+// literalFieldStrings: the constant string values of struct field name in the elements of a composite literal of
+// structs (keyed or positional elements).
+func literalFieldStrings(info *types.Info, table *ast.CompositeLit, name string) []string {
+	if table == nil {
+		return nil
+	}
+	var out []string
+	for _, el := range table.Elts {
+		if kv, ok := el.(*ast.KeyValueExpr); ok {
+			el = kv.Value
+		}
+		cl, ok := ast.Unparen(el).(*ast.CompositeLit)
+		if !ok {
+			return nil
+		}
+		st, ok := info.TypeOf(cl).Underlying().(*types.Struct)
+		if !ok {
+			return nil
+		}
+		found := false
+		for i, f := range cl.Elts {
+			if kv, ok := f.(*ast.KeyValueExpr); ok {
+				if id, ok := kv.Key.(*ast.Ident); ok && id.Name == name {
+					if sv, ok := constString(info, kv.Value); ok {
+						out = append(out, sv)
+						found = true
+					}
+				}
+				continue
+			}
+			if i < st.NumFields() && st.Field(i).Name() == name {
+				if sv, ok := constString(info, f); ok {
+					out = append(out, sv)
+					found = true
+				}
+			}
+		}
+		if !found {
+			return nil
+		}
+	}
+	return out
 }
